@@ -64,7 +64,7 @@ func c03Universe(thorough bool) gmodel.Universe {
 		Graphs:  []string{"g1", "g10"},
 		VIDs:    []string{"a", "ab", "zz"},
 		EIDs:    []string{"e", "ee", "zz"},
-		VLabels: []string{"P", "Q"},
+		VLabels: []string{"P", "PQ"},
 		Filters: [][]string{nil, {"x"}, {"y"}, {"x", "y"}},
 	}
 }
@@ -81,7 +81,7 @@ func c03Ops(thorough bool) []gmodel.Op {
 	ops = append(ops, gmodel.Op{Kind: "AddGraph", G: "g1"})
 	// vertices in g1
 	for _, id := range []string{"a", "ab"} {
-		for _, l := range []string{"P", "Q"} {
+		for _, l := range []string{"P", "PQ"} {
 			for _, d := range []map[string]any{nil, n1} {
 				if !thorough && id == "ab" && d != nil {
 					continue
@@ -113,12 +113,12 @@ func c03Ops(thorough bool) []gmodel.Op {
 	}
 	// batched and bulk
 	ops = append(ops,
-		gmodel.Op{Kind: "AddVertex", G: "g1", Elems: []gmodel.Elem{V("a", "P", nil), V("ab", "Q", n1)}},
-		gmodel.Op{Kind: "AddVertex", G: "g1", Elems: []gmodel.Elem{V("a", "Q", nil), V("", "P", nil)}},
+		gmodel.Op{Kind: "AddVertex", G: "g1", Elems: []gmodel.Elem{V("a", "P", nil), V("ab", "PQ", n1)}},
+		gmodel.Op{Kind: "AddVertex", G: "g1", Elems: []gmodel.Elem{V("a", "PQ", nil), V("", "P", nil)}},
 		gmodel.Op{Kind: "AddEdge", G: "g1", Elems: []gmodel.Elem{E("e", "a", "ab", "x"), E("ee", "ab", "a", "y")}},
 		gmodel.Op{Kind: "BulkAdd", G: "g1", Elems: []gmodel.Elem{V("a", "P", nil), E("e", "a", "ab", "x")}},
-		gmodel.Op{Kind: "BulkAdd", G: "g1", Elems: []gmodel.Elem{V("ab", "Q", nil), E("ee", "ab", "ab", "y")}},
-		gmodel.Op{Kind: "BulkAdd", G: "g1", Elems: []gmodel.Elem{V("a", "Q", n1), V("ab", "", nil)}},
+		gmodel.Op{Kind: "BulkAdd", G: "g1", Elems: []gmodel.Elem{V("ab", "PQ", nil), E("ee", "ab", "ab", "y")}},
+		gmodel.Op{Kind: "BulkAdd", G: "g1", Elems: []gmodel.Elem{V("a", "PQ", n1), V("ab", "", nil)}},
 		gmodel.Op{Kind: "BulkAdd", G: "g1", Elems: []gmodel.Elem{E("e", "ab", "a", "y"), E("e", "", "a", "y")}},
 	)
 	// invalid single elements
@@ -138,7 +138,7 @@ func c03Ops(thorough bool) []gmodel.Op {
 		gmodel.Op{Kind: "AddGraph", G: "g10"},
 		gmodel.Op{Kind: "DeleteGraph", G: "g10"},
 		gmodel.Op{Kind: "DeleteGraph", G: "g1"},
-		gmodel.Op{Kind: "AddVertex", G: "g10", Elems: []gmodel.Elem{V("a", "Q", nil)}},
+		gmodel.Op{Kind: "AddVertex", G: "g10", Elems: []gmodel.Elem{V("a", "PQ", nil)}},
 		gmodel.Op{Kind: "AddEdge", G: "g10", Elems: []gmodel.Elem{E("e", "a", "a", "y")}},
 	)
 	if thorough {
